@@ -48,6 +48,7 @@ def instances(tier):
         out.append({"kind": "closed", "how": "closed_after_open", "via": via})
     out.append({"kind": "overfill"})
     out.append({"kind": "overfill", "eleventh": "predefined"})
+    out.append({"kind": "overfill", "during_connect": True})       # all eleven sends fall into a slow connection attempt
     for g in (4, 5):
         out.append({"kind": "api_overfill", "gen": g})
     out.append({"kind": "concurrent_failures", "n": 11})
@@ -343,6 +344,8 @@ def _run_overfill(ctx, p):
     cap = S.MAX_MESSAGE_QUEUE_SIZE
     with Rig(ctx, g) as rig:
         rig.net.on_connect = lambda net, n: ("accept", 0) if n >= 1 else ("refuse",)
+        if p.get("during_connect"):
+            rig.net.on_connect = lambda net, n: ("accept", 3.0)
         res = []
 
         # the eleventh message is sent with one of the module's predefined policies (solver-enumerated) - the limit does not
@@ -354,6 +357,9 @@ def _run_overfill(ctx, p):
 
         async def go():
             await rig.sock.open_socket()
+            if p.get("during_connect"):
+                import asyncio
+                await asyncio.sleep(0.5)          # the connection attempt (3 s) is under way now
             for i in range(cap + 1):
                 try:
                     await rig.sock.send(_msg(g, i), S.RETRY_IDEMPOTENT if i < cap else last_policy)
@@ -362,7 +368,7 @@ def _run_overfill(ctx, p):
                     res.append("overflow")
 
         rig.spawn(go())
-        rig.loop.vt_run(3.25)
+        rig.loop.vt_run(3.25 if not p.get("during_connect") else 5.25)
         wire = rig.net.conns[0].written() if rig.net.conns else []
         exp = []
         for i in range(cap):
